@@ -241,3 +241,15 @@ def cross_feature_product():
             f.raw("\n")
         code, exp = f.build(crlf=crlf)
         yield gen.cfg_index(0, style), code, ("cross", (d, tg, tuple(kvs), crlf, multi, second, pos), exp)
+
+
+def far_positions():
+    """Statements whose column, or whose line number, sits at 255/256/257 and 65535/65536/65537 (and one far beyond)."""
+    for n in (255, 256, 257, 65535, 65536, 65537, 200000):
+        for kind in ("column", "line"):
+            if kind == "column":
+                text = "/*" + "c" * (n - 5) + "*/ " + 'info!("m"); warn!(a = 1; "second on the same long line");\n'
+            else:
+                text = "\n" * (n - 1) + 'info!("m");\nwarn!("next line");\n'
+            for style in (False, True):
+                yield gen.cfg_index(0, style), text, ("far-position", kind, n)
